@@ -111,11 +111,13 @@ def _usable(obs):
 
 def correspondence(ctx):
     res = CorrResult()
-    cases = [c["case"] for c in fc.load_corpus(ID)] + _cases(ctx, ctx.n(110, 1500))
+    cases = [c["case"] for c in fc.load_corpus(ID)] + _cases(ctx, ctx.n(95, 1500))
     terms, idx = [], []
     skipped = 0
     def take(c, obs, origin):
         nonlocal skipped
+        if c.get("malformed"):
+            return
         if obs.get("exn_type") == "RuntimeError":
             skipped += 1
             return
@@ -155,11 +157,11 @@ def correspondence(ctx):
     for c in cases:
         if c["kind"] in ("history", "multi"):
             continue
-        if "plot" not in c and ctx.rng.random() < 0.12:
+        if "plot" not in c and c.get("numtype") != "Fraction" and ctx.rng.random() < 0.12:
             c["plot"] = True          # also draw the result and evaluate the fitted function again afterwards
         take(c, fc.run_case(c, observe_result=True), c)
     multis = [c for c in cases if c["kind"] == "multi"]
-    while len(multis) < ctx.n(10, 120):
+    while len(multis) < ctx.n(8, 120):
         m = fc.gen_multi(ctx.rng)
         if m:
             multis.append(m)
@@ -170,7 +172,7 @@ def correspondence(ctx):
         for c, obs in fc.run_multi(m):
             take(c, obs, m)
     hists = [c for c in cases if c["kind"] == "history"]
-    while len(hists) < ctx.n(12, 150):
+    while len(hists) < ctx.n(10, 150):
         h = fc.gen_history(ctx.rng)
         if h:
             hists.append(h)
@@ -292,6 +294,8 @@ def check_oracle(case, obs=None):
     if not fc.in_domain(case):
         return None
     obs = obs or fc.run_case(case, observe_result=True)
+    if case.get("malformed"):
+        return None           # rejected requests are C06's business; here they only sit between the fits of a history
     if obs.get("exn_type") == "RuntimeError":
         return None
     if obs["exn"] is not None:
